@@ -143,8 +143,37 @@ func lessThanConsts(p *pkgSrc, fd *ast.FuncDecl, consts map[string]string) []str
 // fd and what it calls
 func convertedConsts(p *pkgSrc, fd *ast.FuncDecl, consts map[string]string) []string {
 	set := map[string]bool{}
+	// the bodies of the functions reached, and the initialisers of the package-level variables these bodies name (a
+	// bound converted once: var minTwips = toTwips(minMM))
+	var scopes []ast.Node
+	named := map[string]bool{}
 	for _, g := range reachFuncs(p, fd, 2, map[string]bool{}) {
+		scopes = append(scopes, g.Body)
 		ast.Inspect(g.Body, func(n ast.Node) bool {
+			if id, ok := n.(*ast.Ident); ok {
+				named[id.Name] = true
+			}
+			return true
+		})
+	}
+	for _, fn := range p.sortedFiles() {
+		for _, d := range p.files[fn].Decls {
+			gd, ok := d.(*ast.GenDecl)
+			if !ok || gd.Tok != token.VAR {
+				continue
+			}
+			for _, sp := range gd.Specs {
+				vs := sp.(*ast.ValueSpec)
+				for i, nm := range vs.Names {
+					if named[nm.Name] && i < len(vs.Values) {
+						scopes = append(scopes, vs.Values[i])
+					}
+				}
+			}
+		}
+	}
+	for _, scope := range scopes {
+		ast.Inspect(scope, func(n ast.Node) bool {
 			ce, ok := n.(*ast.CallExpr)
 			// mmToTwips(c), or a wrapper of the package around it: f(c) with a single argument
 			if id, isIdent := func() (*ast.Ident, bool) {
